@@ -6,10 +6,13 @@
         remove (with pruning of emptied nodes), findSubscribers (frontier loop)
     - [find1]  : depth-first reformulation of findSubscribers (proved equal)
     - [tm_subscribe], [tm_unsubscribe_*] : TopicManager.subscribe / unsubscribe
-    - [step]   : client.go processSubscribe / processUnsubscribe /
-                 closeAndDelSession together with session.go's Topics map ([sess])
+    - [step]   : broker.go handleConn (new connection, take-over of a connected id,
+                 re-subscription from a stored persistent session), client.go
+                 processSubscribe / processUnsubscribe / closeAndDelSession, together
+                 with session.go's Topics map, in memory and in the session store ([sess])
     - spec side (declarative, independent of the trie): [split_slash], [wf_filter],
-      [matches]/[matchesb], [live] = naive replay of the history into a finite map.
+      [matches]/[matchesb], [spec]/[live] = naive replay of the history into a finite
+      map (entries of a persistent session are suspended while its client is offline).
 
     The level LRU cache (topicLevelManager) memoises the pure function splitTopic and
     is therefore not modelled; the correspondence runs with cache sizes 1..3.
@@ -263,9 +266,13 @@ Definition lunsub (c : cid) (fs : list string) (m : lmap) : lmap :=
 
 (** ** operations, quirks, the broker-side step *)
 Inductive op :=
+| Conn (c : cid) (clean : bool)               (* CONNECT on a new connection; when [c] is still
+                                                 connected: take-over, followed by the end of the
+                                                 superseded connection *)
 | Sub (c : cid) (fqs : list (string * qos))   (* SUBSCRIBE packet *)
 | Unsub (c : cid) (fs : list string)          (* UNSUBSCRIBE packet *)
-| Disc (c : cid).                             (* connection closed (clean session) *)
+| Disc (c : cid).                             (* the connection of [c] ends (DISCONNECT, socket
+                                                 error, or closed by the broker beforehand) *)
 
 (** defect sites of the unchanged code (see known_findings/C14.json) *)
 Record quirks := {
@@ -277,8 +284,12 @@ Record quirks := {
 }.
 Definition ideal : quirks := {| q_abort_on_malformed := false |}.
 
-Record state := { trie : node; sess : lmap }.
-Definition st0 : state := {| trie := empty_node; sess := [] |}.
+(** [sess]: Session.info.Topics of every client, one finite map: for a connected client
+    the in-memory session (its stored copy follows every change), for a disconnected
+    client the copy left in the session store (persistent sessions only).
+    [online]: the connected client ids with the cleanSession flag of their session. *)
+Record state := { trie : node; sess : lmap; online : list (cid * bool) }.
+Definition st0 : state := {| trie := empty_node; sess := []; online := [] |}.
 
 Inductive out := Ack (b : bool) | NoOut.
 
@@ -288,33 +299,100 @@ Definition valid_filter (f : string) : bool :=
 Definition tm_unsubscribe (Q : quirks) :=
   if q_abort_on_malformed Q then tm_unsubscribe_abort else tm_unsubscribe_skip.
 
+(** TopicManager.subscribe: the repaired code validates every filter first *)
+Definition tm_subscribe_q (Q : quirks) (c : cid) (fqs : list (string * qos)) (n : node) : node * bool :=
+  if negb (q_abort_on_malformed Q) && negb (forallb (fun fq => valid_filter (fst fq)) fqs)
+  then (n, false)
+  else tm_subscribe c fqs n.
+
+Definition is_on (c : cid) (on : list (cid * bool)) : bool :=
+  match alookup c on with Some _ => true | None => false end.
+
+Definition lpairs (c : cid) (m : lmap) : list (string * qos) :=
+  map (fun e => (snd (fst e), snd e)) (filter (fun e => fst (fst e) =? c) m).
+
+(** the connection of [c] ends: closeAndDelSession = unsubscribe(session.allSubscribes()),
+    session dropped from the store when it is a clean one.  allSubscribes iterates a Go
+    map; the model uses the list order (irrelevant when every stored filter is valid). *)
+Definition teardown (Q : quirks) (c : cid) (s : state) : state :=
+  match alookup c (online s) with
+  | None => s
+  | Some clean =>
+      {| trie := tm_unsubscribe Q c (lfilters c (sess s)) (trie s);
+         sess := if clean then ldrop c (sess s) else sess s;
+         online := aremove c (online s) |}
+  end.
+
+(** handleConn for a client id that is not connected: setSession + re-subscription of the
+    topics of the previous persistent session (cleanSession=false), or a fresh session *)
+Definition connect (Q : quirks) (c : cid) (clean : bool) (s : state) : state :=
+  if clean then {| trie := trie s; sess := ldrop c (sess s); online := aset c true (online s) |}
+  else {| trie := fst (tm_subscribe_q Q c (lpairs c (sess s)) (trie s));
+          sess := sess s; online := aset c false (online s) |}.
+
+(** SUBSCRIBE / UNSUBSCRIBE of a client id that has no connection: the harness connects
+    it first with a clean session *)
+Definition ensure_on (Q : quirks) (c : cid) (s : state) : state :=
+  if is_on c (online s) then s else connect Q c true s.
+
 Definition step (Q : quirks) (s : state) (o : op) : state * out :=
   match o with
+  | Conn c clean =>
+      (* take-over: the new connection is set up first and the superseded connection's
+         tear-down follows; for the shapes in the alphabet (not persistent -> persistent,
+         see KF-C16) the result is that of tear-down followed by the connect *)
+      (connect Q c clean (teardown Q c s), NoOut)
   | Sub c fqs =>
-      if negb (q_abort_on_malformed Q) && negb (forallb (fun fq => valid_filter (fst fq)) fqs)
-      then (s, Ack false)                     (* repaired: validate all filters first *)
-      else
-        let '(n', ok) := tm_subscribe c fqs (trie s) in
-        if ok then ({| trie := n'; sess := lsub c fqs (sess s) |}, Ack true)   (* session.subscribe + SUBACK *)
-        else ({| trie := n'; sess := sess s |}, Ack false)                     (* error logged, no SUBACK *)
+      let s := ensure_on Q c s in
+      let '(n', ok) := tm_subscribe_q Q c fqs (trie s) in
+      if ok then ({| trie := n'; sess := lsub c fqs (sess s); online := online s |}, Ack true)   (* session.subscribe + SUBACK *)
+      else ({| trie := n'; sess := sess s; online := online s |}, Ack false)                     (* error logged, no SUBACK *)
   | Unsub c fs =>
+      let s := ensure_on Q c s in
       (* the error of topicMgr.unsubscribe is only logged; session.unsubscribe; UNSUBACK *)
-      ({| trie := tm_unsubscribe Q c fs (trie s); sess := lunsub c fs (sess s) |}, Ack true)
-  | Disc c =>
-      (* closeAndDelSession: unsubscribe(session.allSubscribes()); session dropped.
-         allSubscribes iterates a Go map; the model uses the list order (the order is
-         irrelevant when every stored filter is valid) *)
-      ({| trie := tm_unsubscribe Q c (lfilters c (sess s)) (trie s); sess := ldrop c (sess s) |}, NoOut)
+      ({| trie := tm_unsubscribe Q c fs (trie s); sess := lunsub c fs (sess s); online := online s |}, Ack true)
+  | Disc c => (teardown Q c s, NoOut)
   end.
 
 Definition next (Q : quirks) (s : state) (o : op) : state := fst (step Q s o).
 Definition run (Q : quirks) (ops : list op) : state := fold_left (next Q) ops st0.
 
-(** ** the declarative specification: live subscriptions by naive replay *)
-Definition live_step (m : lmap) (o : op) : lmap :=
-  match o with
-  | Sub c fqs => if forallb (fun fq => wf_filter (fst fq)) fqs then lsub c fqs m else m
-  | Unsub c fs => lunsub c fs m
-  | Disc c => ldrop c m
+(** ** the declarative specification: naive replay.  [sp_m] holds the subscriptions of
+    connected clients and the suspended ones of disconnected persistent sessions;
+    [live] = the subscriptions of connected clients. *)
+Record spec_state := { sp_m : lmap; sp_on : list (cid * bool) }.
+Definition sp0 : spec_state := {| sp_m := []; sp_on := [] |}.
+
+Definition spec_teardown (c : cid) (sp : spec_state) : spec_state :=
+  match alookup c (sp_on sp) with
+  | None => sp
+  | Some clean => {| sp_m := if clean then ldrop c (sp_m sp) else sp_m sp;
+                     sp_on := aremove c (sp_on sp) |}
   end.
-Definition live (ops : list op) : lmap := fold_left live_step ops [].
+
+Definition spec_connect (c : cid) (clean : bool) (sp : spec_state) : spec_state :=
+  {| sp_m := if clean then ldrop c (sp_m sp) else sp_m sp; sp_on := aset c clean (sp_on sp) |}.
+
+Definition spec_ensure (c : cid) (sp : spec_state) : spec_state :=
+  if is_on c (sp_on sp) then sp else spec_connect c true sp.
+
+Definition spec_step (sp : spec_state) (o : op) : spec_state :=
+  match o with
+  | Conn c clean => spec_connect c clean (spec_teardown c sp)
+  | Sub c fqs =>
+      let sp := spec_ensure c sp in
+      if forallb (fun fq => wf_filter (fst fq)) fqs
+      then {| sp_m := lsub c fqs (sp_m sp); sp_on := sp_on sp |} else sp
+  | Unsub c fs =>
+      let sp := spec_ensure c sp in {| sp_m := lunsub c fs (sp_m sp); sp_on := sp_on sp |}
+  | Disc c => spec_teardown c sp
+  end.
+
+Definition spec (ops : list op) : spec_state := fold_left spec_step ops sp0.
+
+(** the entries of [m] whose client is connected *)
+Definition vis (on : list (cid * bool)) (m : lmap) : lmap :=
+  filter (fun e => is_on (fst (fst e)) on) m.
+
+Definition live_of (sp : spec_state) : lmap := vis (sp_on sp) (sp_m sp).
+Definition live (ops : list op) : lmap := live_of (spec ops).
